@@ -13,6 +13,7 @@ mod udp_codec;
 mod ws_swarm;
 mod addr;
 mod http_resp;
+mod http_req;
 
 use std::collections::HashMap;
 
@@ -115,6 +116,7 @@ fn main() {
         "ws-swarm" => ws_swarm::run(&args),
         "addr" => addr::run(&args),
         "http-resp" => http_resp::run(&args),
+        "http-req" => http_req::run(&args),
         "config-refusal" => http_resp::run_refusal(&args),
         "export-child" => export_crash::child(&args),
         other => {
